@@ -40,6 +40,15 @@ func runC09(c *fw.Ctx, idx int) fw.Result {
 		// more queries than any channel of the pipeline holds (NumCPU, NumCPU+50)
 		prof.MaxQueries = r.Range(20, 120)
 	}
+	if idx%40 == 11 {
+		// genome-scale rows: SNP positions beyond 2^12, 10^4 and 2^14
+		prof.Width = [2]int{4200, 12000}
+		if r.Chance(0.3) {
+			prof.Width = [2]int{16500, 31000}
+		}
+		prof.MaxTargets = 12
+		res.Count("genome_scale_cases", 1)
+	}
 	in := gen.MakeUpdown(r, prof)
 	if r.Chance(0.2) {
 		// a reference with alignment gaps or ambiguity codes in a few columns (accepted with a
